@@ -421,7 +421,7 @@ func anchors() []Case {
 func TestC02Readers(t *testing.T) {
 	h.Run(t, h.Spec[Case]{
 		Property: "C02", Name: "readers", Quick: 40000, Thorough: 1600000, Timeout: 15 * time.Second,
-		Rule: "documents of the five formats written by independent writers from generated trees (1-3 trees, one document in twelve 9-30 trees; multi-Newick layouts, Nexus with TAXA/DATA/TRANSLATE/unknown blocks and comments, PhyloXML, Nextstrain v2), hostile constants, deep nesting, random bytes, cross-format input; 0-4 byte-level mutations (truncate, delete, duplicate, insert dictionary token or random bytes, flip, splice with a second document, replace, swap); every document goes through the format's parser, ReadTreeReader and ReadMultiTrees (drained); every delivered tree is traversed, indexed and written (Newick, Nexus +-translate, PhyloXML, Clone), then indexed again, unrooted and written again; one generated tree in six carries a numeric, support/p-value or plain label and a length on its root. 3% of the documents also go through the command line (`reformat newick --input-format`, `stats rooted --format`, `unroot -o`): the process must end without a Go panic trace. Oracle: everything returns within 15 s, no panic on any goroutine, no record without tree and error. Non-trivial = a mutated valid document or a hostile constant",
+		Rule: "documents of the five formats written by independent writers from generated trees (1-3 trees, one document in twelve 9-30 trees; multi-Newick layouts, Nexus with TAXA/DATA/TRANSLATE/unknown blocks and comments, PhyloXML, Nextstrain v2), hostile constants, deep nesting, random bytes, cross-format input; 0-4 byte-level mutations (truncate, delete, duplicate, insert dictionary token or random bytes, flip, splice with a second document, replace, swap); every document goes through the format's parser, ReadTreeReader and ReadMultiTrees (drained); every delivered tree is traversed, indexed and written (Newick, Nexus +-translate, PhyloXML, Clone), then indexed again, unrooted and written again; one generated tree in six carries a numeric, support/p-value or plain label and a length on its root. 3% of the documents also go through the command line (`reformat newick --input-format`, `stats rooted --format`, `unroot -o`): the process must end without a Go panic trace. Oracle: everything returns (watchdog: 15 s of the check's own processor time, 90 s of wall time), no panic on any goroutine, no record without tree and error. Non-trivial = a mutated valid document or a hostile constant",
 		Gen:   genCase,
 		Check: check,
 		Anchors: anchors(),
